@@ -21,7 +21,7 @@ import json,sys,re
 m=json.load(open(sys.argv[1]))
 c=m.get("demo_cmd") or m.get("how_to_run_demo") or ""
 # keep only the cargo invocation
-mm=re.search(r"(cargo test[^&;#]*)", c)
+mm=re.search(r"(cargo test[^&;#(]*)", c)
 print(mm.group(1).strip() if mm else "")
 PY
 )
